@@ -8,11 +8,14 @@ import glob, json, os, re, shutil, subprocess, sys, time
 V = "/verif"
 args = sys.argv[1:]
 extra = []
+META_ONLY = False
 jobs = "8"
 ids = []
 i = 0
 while i < len(args):
-    if args[i] == "--checks":
+    if args[i] == "--meta-only":
+        META_ONLY = True; i += 1
+    elif args[i] == "--checks":
         extra = args[i + 1].split(","); i += 2
     elif args[i] == "--jobs":
         jobs = args[i + 1]; i += 2
@@ -24,8 +27,14 @@ head = subprocess.check_output(["git", "-C", "/repo", "rev-parse", "--short", "H
 
 
 def needs_section(readme):
-    m = re.search(r"^#+ *(What is needed[^\n]*|What it needs[^\n]*|Needs[^\n]*|What is needed for it to manifest[^\n]*)\n(.*?)(?=^#+ |\Z)", readme, re.S | re.M | re.I)
-    return m.group(2).strip()[:1500] if m else ""
+    """The part of the README that says what the change needs in order to show (headings differ between authors)."""
+    m = re.search(r"^(?:#+ *|\*\*)[^\n]*(?:[Nn]eed|manifest)[^\n]*\n?(.*?)(?=^#+ |^\*\*[A-Z][^\n]*\*\*|\Z)", readme, re.S | re.M)
+    if m:
+        head = m.group(0).split("\n")[0]
+        body = m.group(1).strip()
+        inline = re.sub(r"^(?:#+ *|\*\*)[^:*]*\**:?\**", "", head).strip()
+        return (inline + " " + body).strip()[:1500]
+    return ""
 
 
 for mid in ids:
@@ -36,6 +45,9 @@ for mid in ids:
     meta = json.load(open(meta_path)) if os.path.exists(meta_path) else {}
     meta.update({"id": mid, "property": prop, "title": readme.split("\n")[0].lstrip("# ").strip(), "needs_to_manifest": needs_section(readme) or meta.get("needs_to_manifest", "see README.md"), "files": sorted(os.listdir(d))})
     meta.setdefault("validated", {})
+    if META_ONLY:
+        json.dump(meta, open(meta_path, "w"), indent=1)
+        continue
     wt = f"/tmp/mw/ct-{mid}"
     os.makedirs("/tmp/mw", exist_ok=True)
     subprocess.run(["git", "-C", "/repo", "worktree", "remove", "--force", wt], capture_output=True)
